@@ -9,11 +9,26 @@ open Lean Go Vuego
 def scopeOfPairs (j : Json) : Scope :=
   (jarr j).foldl (fun acc e => match jarr e with | [k, v] => Scope.set acc (jstr k) (valOfJson v) | _ => acc) []
 
+/-- `json.Unmarshal` into `any`, for the driver: numbers are float64 (printed the way Go prints the whole numbers and short decimals the
+    generators use), objects `map[string]any`, arrays `[]any`. Text that is not ONE complete JSON document is not decoded (`none`). -/
+partial def valOfDecoded : Json → Val
+  | .null => .nil
+  | .bool b => .bool b
+  | .num n => .float .float64 (n.mantissa == 0) (toString n).toList
+  | .str s => .str s.toList
+  | .arr a => .list false (a.toList.map valOfDecoded)
+  | .obj kvs => .map .anyMap (kvs.toList.map (fun (k, v) => (k.toList, valOfDecoded v)))
+
+def jsonDecodeStr (s : Str) : Option Val :=
+  match Json.parse (String.ofList s) with
+  | .ok j => some (valOfDecoded j)
+  | .error _ => none
+
 def worldOfJson (j : Json) : World :=
   { P := { exprEval := ExprMini.exprEval, cfg := Generated.reflectCfg },
     files := (jfields (jget j "files")).map (fun (n, f) => (n.toList, (scopeOfPairs (jget f "fm"), (jarrK f "dom").map nodeOfJson))),
     comps := (jarrK j "comps").map (fun e => match jarr e with | [t, f] => (jstr t, jstr f) | _ => ([], [])),
-    jsonDecode := fun _ => none }
+    jsonDecode := jsonDecodeStr }
 
 def errClass : String → String
   | c => c
